@@ -41,6 +41,11 @@ type Prop struct {
 
 var registry = map[string]*Prop{}
 
+// digestMode (env VSIM_DIGEST=1): workers report a signature for every run and the coordinator prints one
+// digest over (run index -> signature, tape length, virtual time, outcome): the determinism self-test compares
+// it across processes, worker counts and GOMAXPROCS values.
+var digestMode = os.Getenv("VSIM_DIGEST") == "1"
+
 // Register adds a property world.
 func Register(p *Prop) {
 	if _, dup := registry[p.ID]; dup {
@@ -158,6 +163,7 @@ type wireBatch struct {
 	Samples []wireSample     `json:"samples"`
 	Aborts  []string         `json:"aborts"`
 	MaxRSS  int64            `json:"maxrss"`
+	RunSigs [][2]uint64      `json:"runsigs,omitempty"` // (run index, signature incl. outcome) of every run: determinism self-test only
 }
 
 func setMemLimit(p *Prop) {
@@ -237,6 +243,17 @@ func WorkerMain(propID string, seed uint64) int {
 			if r.NonTriv {
 				b.NonTriv++
 				b.Sigs = append(b.Sigs, r.Signature())
+			}
+			if digestMode {
+				sg := r.Signature()
+				for _, v := range r.Viol {
+					sg = Mix(sg, HashString(v.Class))
+				}
+				for _, v := range r.Known {
+					sg = Mix(sg, HashString(v.Class))
+				}
+				sg = Mix(sg, uint64(len(t.Recorded())), uint64(r.NowNs))
+				b.RunSigs = append(b.RunSigs, [2]uint64{uint64(idx), sg})
 			}
 			for _, kv := range r.Known {
 				emit("K", wireKnown{idx, kv})
